@@ -137,6 +137,21 @@ func (e *Engine) verifyFunc(fc *FuncContract, cfg *RunCfg) *FuncReport {
 				rep.Obligations = append(rep.Obligations, &OblResult{Name: fmt.Sprintf("contract.binding/%s.loop%d", fc.Key, ord), Kind: "binding", Func: fc.Key, Status: "failed", Answer: fmt.Sprintf("function has %d loops", len(li.list))})
 			}
 		}
+		// every atcall hook must be able to fire somewhere in the function
+		for hi, h := range fc.Hooks {
+			need := 1
+			if h.Ord > 0 {
+				need = h.Ord
+			}
+			if got := e.hookSites(fn, h); got < need {
+				ordTxt := ""
+				if h.Ord > 0 {
+					ordTxt = fmt.Sprintf("#%d", h.Ord)
+				}
+				rep.Obligations = append(rep.Obligations, &OblResult{Name: fmt.Sprintf("contract.binding/%s.atcall.%s%s.%s.hook%d", fc.Key, h.Callee, ordTxt, h.When, hi+1), Kind: "binding", Func: fc.Key, Status: "failed",
+					Answer: fmt.Sprintf("the hook matches %d call site(s) of the function (needs %d): its clause is no longer checked", got, need)})
+			}
+		}
 		e.runFunc(fn, fc)
 	}
 	rep.Paths = len(e.paths)
